@@ -13,6 +13,7 @@ import json
 import math
 import os
 import sys
+import time
 from fractions import Fraction
 
 from common import REPO, VERIF, coq_bool, coq_list, coq_string, coq_z, frac, qc, sh, source_pins
@@ -20,15 +21,19 @@ from common import REPO, VERIF, coq_bool, coq_list, coq_string, coq_z, frac, qc,
 TRUSTED_BASE = [
     "Coq 8.16.1 kernel + coqc (vm_compute only for finite sweeps over generated tables and concrete witnesses; no native_compute)",
     "Print Assumptions: every C05 theorem is closed under the global context (no axioms)",
-    "translators tr/translate_c05.py and tr/translate_units.py (Python ast -> gen/C05_Gen.v, gen/C06_Gen.v; fail-closed)",
-    "hand model coq/C05/Model.v (table interpreters, _check_solvent, Species.energy/enthalpy/free_energy, np.argmin, switch/save/load), tied by the correspondence streams",
-    "pickle (save/load), np.argmin, str.lower/replace/in, Python sum/max: modelled, exercised by correspondence, not verified",
+    "translator tr/translate_c05.py (Python ast -> gen/C05_Gen.v; fail-closed) which also runs tr/translate_units.py into C05's own gen/C05_Units_Gen.v",
+    "hand model coq/C05/Model.v (table interpreters, _check_solvent, Species.energy/enthalpy/free_energy, Energies.append + the energy setter, "
+    "the choice of the lowest TS, switch / ts setter / in-place updates / save / load), tied by the correspondence streams and source pins",
+    "pickle (save/load) is an ORACLE: the model's save is the identity on the modelled attributes; np/min, str.lower/replace/in, Python sum/max: modelled, exercised, not verified",
     "exact rationals stand for IEEE doubles up to rounding: values compared at 1e-9 relative (absolute below 1 Ha)",
 ]
 ASSUMPTIONS = [
-    "delta_type strings are ASCII plus U+2021 (double dagger) and other caseless non-ASCII characters; str.lower() is modelled on ASCII letters only",
-    "Solvents are drawn from a pool of pairwise different Solvent objects (equality = same pool entry)",
-    "Species.energies holds PotentialEnergy / EnthalpyCont / FreeEnergyCont entries (anything else is ignored by the look-ups); Energies.append's de-duplication is outside the model",
+    "delta_type strings are ASCII plus U+2021 (double dagger) and other caseless non-ASCII characters; str.lower() is modelled on ASCII letters only "
+    "(only U+0130 and U+212A lower-case into ASCII, neither into a letter the parser looks for)",
+    "Solvents are already resolved: the model takes pool indices; aliases (h2o, DCM ...) are exercised, an unknown name raises SolventNotFound before any check (outside the model)",
+    "Energies are finite numbers (NaN / inf are not representable in Qc and not generated)",
+    "Reaction() with no molecules returns the bare int 0 from delta; the model identifies it with 0 Ha (the stream accepts a bare number only there)",
+    "Species.energies holds Energy objects of the six concrete classes; `species.energy = v` and Energies.append (de-duplication within 1.59e-5 Ha) are modelled",
     "pickle reproduces every attribute of Reaction.__dict__ (oracle); the 1 s checkpoint threshold is exercised with a substituted clock",
     "Arithmetic is exact over Q; IEEE rounding is outside the theorems",
 ]
@@ -38,17 +43,21 @@ RULE = ("seeded structured generator: reactant/product multisets (0-4 x 0-4 spec
         "(potential, H and G contributions, occasionally missing or duplicated) as dyadic rationals in the five energy units, "
         "0-3 transition-state stubs; every reaction is queried with ~25 delta_type spellings + random strings over the "
         "parser's alphabet, and is taken through a history of 1-5 switch / save+load / ts=None / ts=TS / tss.append operations "
-        "with len(tss), is_barrierless, ts and four deltas observed after every step. A case is non-trivial unless the reaction is the "
+        "/ invalid ts / in-place energy replacement with len(tss), is_barrierless, ts and four deltas observed after every step; "
+        "30% of the species additionally get 1-3 `species.energy = v` assignments (PotentialEnergy / other Energy classes / float / "
+        "str / None, repeated values, all five units); solvents by alias; 12 reaction SMILES through the SMILES constructor. A case is non-trivial unless the reaction is the "
         "empty reaction; distinct by (stream, reaction spec, spelling / history)")
 
 # Functions the HAND-WRITTEN parts of coq/C05/Model.v (and the structural reference oracle of this file) were
 # written from.  Not listed, because tr/translate_c05.py matches every statement of them (fail-closed) or regenerates
 # them: Reaction.delta, _estimated_barrierless_delta, _check_balance, is_barrierless, ts (getter and setter), save,
-# load, reaction_types.classify, ReactionType.__eq__, TransitionStates.lowest_energy, utils.checkpoint_rxn_profile_step;
+# load, reaction_types.classify, ReactionType.__eq__, TransitionStates.lowest_energy, utils.checkpoint_rxn_profile_step,
+# values.Energy.__eq__, values.Energies.append, the Species.energy SETTER (its getter is pinned below);
 # values._to and the unit tables (tr/translate_units.py).  Reaction.__init__ and switch_reactants_products are only
 # partly matched by the translator (order of the checks / the swap statement), so they are pinned as well.
 PINS = ([("autode/reactions/reaction.py", q) for q in (
-            "Reaction.__init__", "Reaction._init_from_molecules", "Reaction._check_solvent", "Reaction._check_names",
+            "Reaction.__init__", "Reaction._init_from_molecules", "Reaction._init_from_smiles", "Reaction._check_solvent",
+            "Reaction._check_names",
             "Reaction.switch_reactants_products", "Reaction.from_checkpoint", "Reaction.__str__")] +
         [("autode/reactions/reaction_types.py", "ReactionType.__init__")] +
         [("autode/species/species.py", q) for q in (
@@ -62,15 +71,18 @@ PINS = ([("autode/reactions/reaction.py", q) for q in (
         [("autode/units.py", "Unit.__eq__"), ("autode/solvent/solvents.py", "get_solvent"),
          ("autode/solvent/solvents.py", "Solvent.__eq__")])
 
-SLICE = ["lib/Sums.v", "lib/QcInst.v", "C06/Base.v", "C06/Model.v", "C06/Lemmas.v", "gen/C06_Gen.v",
+# The slice shares only lib/ and the record type C06/Base.v with other properties: the unit table / conv are C05's own
+# output of tr/translate_units.py (gen/C05_Units_Gen.v) and the conversion algebra is in C05/Units.v.
+SLICE = ["lib/Sums.v", "lib/QcInst.v", "C06/Base.v", "gen/C05_Units_Gen.v", "C05/Units.v",
          "C05/Base.v", "gen/C05_Gen.v", "C05/Model.v", "C05/Lemmas.v", "C05/Props.v", "C05/Corr.v"]
 PRE = ("From Coq Require Import ZArith QArith Qcanon List String Bool.\nFrom AV.lib Require Import QcInst.\n"
-       "From AV.C06 Require Import Base.\nFrom AV.gen Require Import C06_Gen C05_Gen.\n"
-       "From AV.C05 Require Import Base Model Corr.\nImport ListNotations.\nOpen Scope string_scope.\n")
+       "From AV.C06 Require Import Base.\nFrom AV.gen Require Import C05_Units_Gen C05_Gen.\n"
+       "From AV.C05 Require Import Units Base Model Corr.\nImport ListNotations.\nOpen Scope string_scope.\n")
 
 POOL = [None, "water", "dcm", "thf"]
 ECLS = {"PotentialEnergy": "EPot", "EnthalpyCont": "EHcont", "FreeEnergyCont": "EGcont",
-        "Energy": "EOther", "Enthalpy": "EOther", "FreeEnergy": "EOther"}
+        "Energy": "EBase", "Enthalpy": "EEnth", "FreeEnergy": "EFreeE"}
+ALIASES = {"water": ["water", "h2o", "WATER"], "dcm": ["dcm", "dichloromethane", "DCM"], "thf": ["thf", "tetrahydrofuran", "THF"]}
 TYPE_TABLE = {(0, 0): None, (2, 1): "addition", (1, 2): "dissociation", (1, 3): "dissociation",
               (2, 2): "substitution", (2, 3): "elimination", (1, 1): "rearrangement"}
 # the documented spellings (docstring of Reaction.delta + the e_type names it is called with)
@@ -86,7 +98,9 @@ EXTRA_SPELLINGS = ["e", "h", "g", "Î”E", "Î”Gâ€¡", "Free Energy", "free energyâ€
                    "H DDAGGER", "", "x", "â€¡", "ddagger", "double dagger", "dagger", "free",
                    "ddouble daggerdagger", "potential energy", "free enthalpy"]
 FUZZ_ALPHABET = ["e", "h", "g", "f", "r", "d", "a", "o", "u", "b", "l", " ", "_", "â€¡", "E", "H", "G", "D",
-                 "free", "ddagger", "double dagger", "dagger", "energy", "x"]
+                 "free", "ddagger", "double dagger", "dagger", "energy", "x", "n", "t", "p", "y", "i", "c", "s", "m",
+                 "enthalpy", "potential", "gibbs", "Î”"]
+DOC6 = ["E", "H", "G", "Eâ€¡", "Hâ€¡", "Gâ€¡"]
 BARRIERLESS_HA = Fraction(694, 100000)     # 0.00694 Ha = 4.35 kcal mol-1 (the documented estimate)
 
 
@@ -112,9 +126,23 @@ class Impl:
 
     def species(self, cls, sp, name):
         atoms = [self.Atom(sym, x=0.9 * i) for i, sym in enumerate(sp["atoms"])]
-        m = cls(name=name, atoms=atoms, charge=sp["charge"], mult=sp["mult"], solvent_name=sp["solvent"])
+        m = cls(name=name, atoms=atoms, charge=sp["charge"], mult=sp["mult"],
+                solvent_name=sp.get("solvent_alias") or sp["solvent"])
         self.set_energies(m, sp["energies"])
+        self.supply(m, sp.get("supply", []))
         return m
+
+    def supply(self, m, supplies):
+        """Energies supplied the public way: `species.energy = None | float | str | Energy of any class, any unit`."""
+        for v in supplies:
+            if v[0] == "None":
+                m.energy = None
+            elif v[0] == "float":
+                m.energy = float(v[1])
+            elif v[0] == "str":
+                m.energy = repr(float(v[1]))
+            else:
+                m.energy = getattr(self.val, v[0])(v[1], units=v[2])
 
     def set_energies(self, m, entries):
         m.energies = self.val.Energies(*[getattr(self.val, c)(x, units=u) for c, x, u in entries])
@@ -123,6 +151,7 @@ class Impl:
         atoms = [self.Atom(sym, x=0.9 * i) for i, sym in enumerate(sp["atoms"] or ["H"])]
         t = self.TransitionState(self.TSguess(atoms=atoms, name=name, charge=sp["charge"], mult=sp["mult"]))
         self.set_energies(t, sp["energies"])
+        self.supply(t, sp.get("supply", []))
         return t
 
     def build(self, spec):
@@ -200,6 +229,33 @@ def gen_energies(rng, im, full_prob=0.8, big=True):
     return out
 
 
+def gen_supply(rng, im, energies):
+    """1-3 assignments `species.energy = v`: a new value, or physically the same as an energy already held /
+    supplied earlier (possibly written in another unit), as a PotentialEnergy, another Energy class, a float, a str."""
+    names, out = list(im.units), []
+    held = [(x, u) for c, x, u in energies if c == "PotentialEnergy"]
+    for _ in range(rng.randint(1, 3)):
+        k = rng.random()
+        if k < 0.1:
+            out.append(["None"])
+            continue
+        u = rng.choice(names)
+        if held and k < 0.4:                       # the same physical energy again (re-computed), maybe in another unit
+            x0, u0 = rng.choice(held)
+            x = float(frac(x0) * (frac(im.units[u].times) / frac(im.units[u0].times)))
+        else:
+            x = dyadic_in(rng, im.units[u], -40, 40)
+        kind = rng.choice(["PotentialEnergy", "PotentialEnergy", "Energy", "FreeEnergy", "Enthalpy", "float", "str"])
+        if kind in ("float", "str"):
+            x = float(frac(x) * (frac(im.units["Ha"].times) / frac(im.units[u].times)))     # a bare number means Hartree
+            out.append([kind, x])
+            held.append((x, "Ha"))
+        else:
+            out.append([kind, x, u])
+            held.append((x, u))
+    return out
+
+
 def split_total(rng, total, n, lo, hi):
     """n integers in [lo,hi] summing to total when possible (else best effort)."""
     parts = [max(lo, min(hi, total // n if n else 0)) for _ in range(n)]
@@ -232,8 +288,13 @@ def gen_reaction(rng, im, full):
     syms = ["H", "C", "O", "N"]
 
     def sp(n, charge, mult, solvent):
-        return {"atoms": [rng.choice(syms) for _ in range(n)], "charge": charge, "mult": mult, "solvent": solvent,
-                "energies": gen_energies(rng, im, full_prob)}
+        d = {"atoms": [rng.choice(syms) for _ in range(n)], "charge": charge, "mult": mult, "solvent": solvent,
+             "energies": gen_energies(rng, im, full_prob)}
+        if solvent is not None and rng.random() < 0.5:
+            d["solvent_alias"] = rng.choice(ALIASES[solvent])
+        if rng.random() < 0.3:
+            d["supply"] = gen_supply(rng, im, d["energies"])
+        return d
     mode = rng.random()
     solvent_name = None
     if mode < 0.40:
@@ -263,11 +324,14 @@ def gen_reaction(rng, im, full):
                 prods[i]["mult"] = max(1, prods[i]["mult"] + rng.choice([-2, -1, 1, 2, 2]))
             else:
                 prods[i]["solvent"] = rng.choice(POOL)
+                prods[i].pop("solvent_alias", None)
     nts = rng.choice([0, 0, 0, 1, 1, 1, 2, 2, 3]) if nr and np_ else rng.choice([0, 0, 1])
     tss = []
     for _ in range(nts):
         t = sp(sum(len(s["atoms"]) for s in reacs), sum(s["charge"] for s in reacs), 1, None)
         t["energies"] = gen_energies(rng, im, rng.choice([1.0, 1.0, 1.0, 0.7]))
+        if "supply" in t:
+            t["supply"] = gen_supply(rng, im, t["energies"])
         tss.append(t)
     return {"solvent_name": solvent_name, "reacs": reacs, "prods": prods, "tss": tss}
 
@@ -293,9 +357,19 @@ def last_of(sp, cls):
     return None
 
 
+def potential_of(sp):
+    """(value, unit) of the potential energy: the energy assigned last through `species.energy = v` (a bare number
+    is Hartree), else the last PotentialEnergy of the list the species was given."""
+    for v in reversed(sp.get("supply", [])):
+        if v[0] == "None":
+            continue
+        return (v[1], "Ha") if v[0] in ("float", "str") else (v[1], v[2])
+    return last_of(sp, "PotentialEnergy")
+
+
 def contrib(im, sp, kind):
     """E, H = E + H_cont or G = E + G_cont of a species in Ha (Fraction), None if a contribution is missing."""
-    e = last_of(sp, "PotentialEnergy")
+    e = potential_of(sp)
     if e is None:
         return None
     tot = ha(im, *e)
@@ -393,7 +467,35 @@ def reexpress(rng, im, spec):
                 u0, u1 = im.units[e[2]], im.units[v]
                 e[1] = float(frac(e[1]) * (frac(u1.times) / frac(u0.times)))
                 e[2] = v
+            for e in sp.get("supply", []):
+                if len(e) == 3:                     # an Energy object of some class: the same quantity in another unit
+                    v = rng.choice(list(im.units))
+                    u0, u1 = im.units[e[2]], im.units[v]
+                    e[1] = float(frac(e[1]) * (frac(u1.times) / frac(u0.times)))
+                    e[2] = v
     return new
+
+
+def setter_oracle(im, spec):
+    """`species.energy = v` must leave the species with the physical energy v (a bare number = Hartree), whatever
+    class / unit v has and whatever the species held before.  -> list of (key, what, extra)"""
+    out = []
+    for grp in ("reacs", "prods", "tss"):
+        for i, sp in enumerate(spec[grp]):
+            if not any(v[0] != "None" for v in sp.get("supply", [])):
+                continue
+            m = im.ts(sp, "t") if grp == "tss" else im.species(im.Reactant, sp, "m")
+            want = ha(im, *potential_of(sp))
+            got = None if m.energy is None else float(m.energy.to("Ha"))
+            if got is None or not relclose(got, float(want)):
+                last = [v for v in sp["supply"] if v[0] != "None"][-1]
+                if last[0] in ("Energy", "FreeEnergy", "Enthalpy") and got is not None and relclose(got, float(last[1])):
+                    key, why = "Species.energy.setter|unit-dropped", f"the {last[2]} number {last[1]!r} is stored as Hartree"
+                else:
+                    key, why = "Species.energy.setter|value", "the species does not hold the energy assigned last"
+                out.append((key, f"{grp}[{i}]: after energies {sp['energies']} and assignments {sp['supply']} the potential energy is "
+                            f"{got!r} Ha, the energy assigned last is {float(want)!r} Ha: {why}", {"group": grp, "index": i}))
+    return out
 
 
 # ------------------------------------------------------------------------------------------ property oracles on the implementation
@@ -403,6 +505,8 @@ def oracles(im, spec, spellings, rng, workdir, with_ckpt):
 
     def fail(key, what, **extra):
         out.append((key, what, dict(extra)))
+    out += setter_oracle(im, spec)
+    setter_bad = bool(out)
     st, rxn = im.build(spec)
     should, errs = spec_ctor(spec)
     nr, np_ = len(spec["reacs"]), len(spec["prods"])
@@ -421,6 +525,8 @@ def oracles(im, spec, spellings, rng, workdir, with_ckpt):
         fail("Reaction.type|table", f"{nr}->{np_} reaction classified as {tname}, expected {TYPE_TABLE[(nr, np_)]}")
     if rxn.charge != sum(s["charge"] for s in spec["reacs"]):
         fail("Reaction.charge", f"reaction charge {rxn.charge} is not the total reactant charge")
+    if setter_bad:
+        return out          # every delta of this reaction is off for the reason already reported
     # --- delta for the documented spellings
     base = {}
     for s, (kind, ts) in DOC.items():
@@ -447,7 +553,7 @@ def oracles(im, spec, spellings, rng, workdir, with_ckpt):
                 if multi and got[1] is not None and matches_other_ts(im, spec, kind, got[1]):
                     fail("TransitionStates.lowest_energy|mixed-units",
                          f"delta({s!r}) = {got[1]!r} Ha but lowest TS minus reactants = {float(want[1])!r} Ha: with TS energies "
-                         f"{[last_of(t, 'PotentialEnergy') for t in spec['tss']]} the TS is picked by the raw numbers, not by energy",
+                         f"{[potential_of(t) for t in spec['tss']]} the TS is picked by the raw numbers, not by energy",
                          spelling=s)
                 elif ts and not spec["tss"]:
                     fail("Reaction.delta|barrierless-estimate", f"delta({s!r}) = {got[1]!r}, diffusion-limit estimate is {float(want[1])!r}", spelling=s)
@@ -493,8 +599,13 @@ def oracles(im, spec, spellings, rng, workdir, with_ckpt):
         if not ok:
             fail("Reaction.delta|swap-sign", f"delta({s!r}) = {a} before and {b} after switch_reactants_products", spelling=s)
     want_t = TYPE_TABLE.get((np_, nr), "<unsupported>")
+    before_t = tname
     tname = None if rxn.type is None else rxn.type.name
-    if tname != want_t:
+    if tname != want_t and tname != before_t:
+        fail("Reaction.switch_reactants_products|type-changed-wrongly",
+             f"after switch_reactants_products the reaction is {np_}->{nr}, its type went from {before_t!r} to {tname!r} "
+             f"(classification by the numbers of molecules gives {want_t!r})")
+    elif tname != want_t:
         fail("Reaction.switch_reactants_products|type-not-reclassified",
              f"after switch_reactants_products the reaction is {np_}->{nr} but its type is still {tname!r} "
              f"(classification by the numbers of molecules gives {want_t!r})")
@@ -503,6 +614,32 @@ def oracles(im, spec, spellings, rng, workdir, with_ckpt):
         if im.delta(rxn, s) != base[s]:
             fail("Reaction.switch_reactants_products|not-involutive", f"delta({s!r}) differs after switching twice", spelling=s)
             break
+    # --- energies replaced IN PLACE after deltas were queried (single points, refinement): nothing may be stale
+    _, rxn = im.build(spec)
+    upd = json.loads(json.dumps(spec))
+    comps = [("reacs", i) for i in range(nr)] + [("prods", i) for i in range(np_)] + [("tss", i) for i in range(len(spec["tss"]))]
+    for s_ in DOC6:
+        im.delta(rxn, s_)                                    # query everything once
+    for it in range(2):
+        if not comps:
+            break
+        grp, i = comps[rng.randrange(len(comps))]
+        new_e = gen_energies(rng, im, 1.0)
+        if grp == "tss" and len(spec["tss"]) >= 2:          # make this TS the lowest one by a wide margin
+            new_e = [e for e in new_e if e[0] != "PotentialEnergy"] + [["PotentialEnergy", -4096.0 * (it + 1), "Ha"]]
+        upd[grp][i] = dict(upd[grp][i], energies=new_e, supply=[])
+        im.set_energies(getattr(rxn, grp)[i], new_e)
+        for s_ in DOC6:
+            kind, ts = DOC[s_]
+            got, want = im.delta(rxn, s_), spec_delta(im, upd, kind, ts)
+            if want[0] == "ambiguous":
+                continue
+            if got[0] != want[0] or (got[0] == "val" and not relclose(got[1], float(want[1]))):
+                fail("Reaction.delta|stale-after-energy-update",
+                     f"after replacing the energies of {grp}[{i}] in place by {new_e}: delta({s_!r}) = {got}, "
+                     f"from the current energies = {want}", spelling=s_, updated=[grp, i, new_e])
+                break
+    _, rxn = im.build(spec)
     # --- the ts setter: None removes every TS (barrier = diffusion-limit estimate), a TS becomes the only one;
     #     both persist through switch / save / load
     os.makedirs(workdir, exist_ok=True)
@@ -538,21 +675,22 @@ def oracles(im, spec, spellings, rng, workdir, with_ckpt):
                     fail("Reaction.ts.setter|value", f"after `ts = TS; save; load`: delta({s!r}) = {got}, TS minus reactants = {want}",
                          new_ts=new_t, spelling=s)
                     break
-    # --- checkpoint round trip
+    # --- checkpoint round trip (every reaction) and the checkpointing decorator (a sample)
+    _, rxn = im.build(spec)
+    out += roundtrip_oracle(im, rxn, spellings, workdir)
     if with_ckpt:
-        _, rxn = im.build(spec)
-        out += checkpoint_oracles(im, spec, rxn, spellings, workdir)
+        out += checkpoint_oracles(im, spec, spellings, workdir)
     return out
 
 
-def checkpoint_oracles(im, spec, rxn, spellings, workdir):
-    import autode.utils as autils
+def roundtrip_oracle(im, rxn, spellings, workdir):
     out = []
     os.makedirs(workdir, exist_ok=True)
     path = os.path.join(workdir, "rxn.chk")
+    spellings = list(DOC)[::2] + spellings[len(DOC):][:4]
     before = im.observe(rxn, spellings)
     rxn.save(path)
-    for how in ("load", "from_checkpoint"):
+    for how in (("load",) if len(rxn.tss) % 2 else ("from_checkpoint",)):
         if how == "load":
             r2 = im.Reaction()
             r2.load(path)
@@ -564,7 +702,15 @@ def checkpoint_oracles(im, spec, rxn, spellings, workdir):
             out.append(("Reaction.save/load|roundtrip", f"after save + {how}: {bad[0]} was {before[bad[0]]}, now {after.get(bad[0])}",
                         {"how": how}))
     os.remove(path)
-    # the checkpointing decorator with a substituted clock
+    return out
+
+
+def checkpoint_oracles(im, spec, spellings, workdir):
+    """The checkpointing decorator with a substituted clock: a step of >= 1 s that RETURNS is checkpointed and later
+    runs are handed exactly its state; a shorter step, or one that RAISES (whatever it did before), leaves no checkpoint."""
+    import autode.utils as autils
+    out = []
+    os.makedirs(workdir, exist_ok=True)
     cwd, real_time = os.getcwd(), autils.time
     clock, calls = [100.0], [0]
     try:
@@ -599,6 +745,40 @@ def checkpoint_oracles(im, spec, rxn, spellings, workdir):
                                 {"dur": dur}))
             elif calls[0] != n0 + 1:
                 out.append(("checkpoint_rxn_profile_step|skipped-without-checkpoint", f"step of {dur} s not executed the second time", {"dur": dur}))
+        # a step that fails half way (after swapping reactants and products, as locate_transition_state does)
+        for dur in (0.25, 3.0):
+            step_name = f"verifx{int(dur * 100)}"
+
+            @autils.checkpoint_rxn_profile_step(step_name)
+            def failing(reaction):
+                calls[0] += 1
+                clock[0] += dur
+                reaction.switch_reactants_products()
+                raise RuntimeError("step failed")
+
+            _, ra = im.build(spec)
+            fp = os.path.join("checkpoints", f"{str(ra)}_{step_name}.chk")
+            raised = False
+            try:
+                failing(ra)
+            except RuntimeError:
+                raised = True
+            if not raised:
+                out.append(("checkpoint_rxn_profile_step|exception-swallowed", f"a step raising after {dur} s returned normally", {"dur": dur}))
+            if os.path.exists(fp):
+                _, rb = im.build(spec)
+                want = im.observe(rb, spellings)
+                n0 = calls[0]
+                try:
+                    failing(rb)
+                except RuntimeError:
+                    pass
+                got = im.observe(rb, spellings) if calls[0] == n0 else want
+                bad = [k for k in want if want[k] != got.get(k)]
+                out.append(("checkpoint_rxn_profile_step|checkpoint-after-exception",
+                            f"a step that swapped reactants and products and then raised after {dur} s left a checkpoint; the next run "
+                            f"skips the step and loads the half-done state" +
+                            (f": {bad[0]} should be {want[bad[0]]}, is {got.get(bad[0])}" if bad else ""), {"dur": dur}))
     finally:
         autils.time = real_time
         os.chdir(cwd)
@@ -622,7 +802,18 @@ def coq_opt_nat(i):
 def coq_species(sp):
     ents = [f"En {ECLS[c]} {qc(x)} {cstr(u)}" for c, x, u in sp["energies"]]
     sid = None if sp["solvent"] is None else POOL.index(sp["solvent"])
-    return f"(mkS {coq_z(len(sp['atoms']))} {coq_z(sp['charge'])} {coq_z(sp['mult'])} {coq_opt_nat(sid)} {coq_list(ents)})"
+    base = f"(mkS {coq_z(len(sp['atoms']))} {coq_z(sp['charge'])} {coq_z(sp['mult'])} {coq_opt_nat(sid)} {coq_list(ents)})"
+    if not sp.get("supply"):
+        return base
+    sup = []
+    for v in sp["supply"]:
+        if v[0] == "None":
+            sup.append("SNone")
+        elif v[0] in ("float", "str"):
+            sup.append(f"SNumber {qc(v[1])}")
+        else:
+            sup.append(f"SE {ECLS[v[0]]} {qc(v[1])} {cstr(v[2])}")
+    return f"(supply {base} {coq_list(sup)})"
 
 
 def coq_built(spec):
@@ -686,6 +877,16 @@ def apply_op(im, rxn, o, path):
         rxn.load(path)
     elif o[0] == "set_ts":
         rxn.ts = None if o[1] is None else im.ts(o[1], "tsx")
+    elif o[0] == "set_ts_invalid":
+        try:
+            rxn.ts = "not a transition state"
+            raise AssertionError("the ts setter accepted a str")
+        except ValueError:
+            pass
+    elif o[0] == "upd":                 # energies replaced in place (which: 0 reactants, 1 products, 2 tss)
+        lst = [rxn.reacs, rxn.prods, rxn.tss][o[1]]
+        if o[2] < len(lst):
+            im.set_energies(lst[o[2]], o[3])
     else:
         rxn.tss.append(im.ts(o[1], "tsa"))
     return rxn
@@ -706,16 +907,20 @@ def gen_ops(rng, im, spec):
     ops = []
     for _ in range(rng.randint(1, 5)):
         k = rng.random()
-        if k < 0.3:
+        if k < 0.25:
             ops.append(["switch"])
-        elif k < 0.55:
+        elif k < 0.45:
             ops.append(["saveload"])
-        elif k < 0.75:
+        elif k < 0.58:
             ops.append(["set_ts", None])
-        elif k < 0.9:
+        elif k < 0.70:
             ops.append(["set_ts", ts_spec()])
-        else:
+        elif k < 0.80:
             ops.append(["append_ts", ts_spec()])
+        elif k < 0.85:
+            ops.append(["set_ts_invalid"])
+        else:
+            ops.append(["upd", rng.randint(0, 2), rng.randint(0, 2), gen_energies(rng, im, rng.choice([1.0, 1.0, 0.7]))])
     return ops
 
 
@@ -726,6 +931,11 @@ def coq_op(o):
         return "OSaveLoad"
     if o[0] == "set_ts":
         return "(OSetTS None)" if o[1] is None else f"(OSetTS (Some {coq_species(o[1])}))"
+    if o[0] == "set_ts_invalid":
+        return "OSetTSInvalid"
+    if o[0] == "upd":
+        ents = [f"En {ECLS[c]} {qc(x)} {cstr(u)}" for c, x, u in o[3]]
+        return f"(OUpd {o[1]}%nat {o[2]}%nat {coq_list(ents)})"
     return f"(OAppendTS {coq_species(o[1])})"
 
 
@@ -745,7 +955,7 @@ def observe_state(im, rxn):
     return f"{len(rxn.tss)}%nat (Some {coq_bool(b)}) {e}", (len(rxn.tss), b, eo)
 
 
-def correspondence(ctx, im, specs, spell_lists, full):
+def correspondence(ctx, im, specs, spell_lists, full, smiles=()):
     terms, descr = [], []
     spl = Spellings()
 
@@ -781,6 +991,20 @@ def correspondence(ctx, im, specs, spell_lists, full):
         ctx.hist("delta_kind", f"{name or 'ValueError'}{'+ts' if ts else ''}")
         add(f"check_kind {coq_string(s)} {coq_string(name)} {coq_bool(ts)}", {"kind": "delta_kind", "string": s, "impl": [name, ts]},
             "delta_kind", s)
+    # (b') the SMILES constructor: same constructor model on the fragments of the string
+    for smi in smiles:
+        _, spec, res = smiles_oracle(im, smi)
+        if spec is None:
+            continue
+        args = f"None {coq_list([coq_species(x) for x in spec['reacs']])} {coq_list([coq_species(x) for x in spec['prods']])}"
+        if res[0] == "err":
+            exp = f"(XFail {coq_string(type(res[1]).__name__)} {coq_string(err_tag(res[1]))})"
+        else:
+            rxn = res[1]
+            tname = "None" if rxn.type is None else f"(Some {coq_string(rxn.type.name)})"
+            exp = (f"(XOk {tname} {coq_opt_nat(im.sid(rxn.solvent))} {coq_z(rxn.charge)} "
+                   f"{coq_list([coq_opt_nat(im.sid(m.solvent)) for m in rxn.reacs + rxn.prods])})")
+        add(f"check_ctor {args} {exp}", {"kind": "ctor-smiles", "smiles": smi}, "ctor-smiles", smi)
     # (c) reactions: constructor, deltas, histories
     for idx, (spec, spellings) in enumerate(zip(specs, spell_lists)):
         nr, np_ = len(spec["reacs"]), len(spec["prods"])
@@ -876,8 +1100,94 @@ def pinpoint(ctx, im, bad):
 
 
 # ------------------------------------------------------------------------------------------ run / replay
-def run_oracles(ctx, im, specs, spell_lists, full):
+SMILES_FIXED = ["C=C.C=C>>C1CCC1", "CCl.[OH-]>>CO.[Cl-]", "CC>>C=C.[H][H]", "[OH-].[H+]>>O", "[H][H]>>[H].[H]",
+                "C1CCC1>>C=C.C=C", "C=C"]
+SMILES_POOL = ["[H][H]", "C", "C=C", "O", "[OH-]", "[H+]", "[H-]", "[CH3]", "[H]", "CC", "[Cl-]", "CCl", "CO"]
+
+
+def gen_smiles(rng, n_random):
+    out = list(SMILES_FIXED)
+    for _ in range(n_random):
+        nr, np_ = rng.choice([(1, 1), (2, 1), (1, 2), (2, 2), (1, 3), (2, 3), (3, 1)])
+        out.append(".".join(rng.choice(SMILES_POOL) for _ in range(nr)) + ">>" + ".".join(rng.choice(SMILES_POOL) for _ in range(np_)))
+    return out
+
+
+_FRAG = {}
+
+
+def smiles_spec(im, smi):
+    """The reaction a reaction-SMILES string denotes: one molecule per '.'-separated fragment, in order, duplicates kept
+    (atom count / charge / multiplicity of a fragment from building that fragment on its own)."""
+    if smi.count(">>") != 1:
+        return None
+
+    def frag(f):
+        if f not in _FRAG:
+            m = im.Reactant(smiles=f)
+            _FRAG[f] = {"atoms": ["H"] * m.n_atoms, "charge": m.charge, "mult": m.mult, "solvent": None, "energies": []}
+        return _FRAG[f]
+    lhs, rhs = smi.split(">>")
+    return {"solvent_name": None, "reacs": [frag(f) for f in lhs.split(".")], "prods": [frag(f) for f in rhs.split(".")], "tss": []}
+
+
+def smiles_oracle(im, smi):
+    """Reaction(<reaction SMILES>): exists iff balanced, type from the numbers of fragments. -> (findings, spec, outcome)"""
+    out = []
+    spec = smiles_spec(im, smi)
+    try:
+        rxn = im.Reaction(smi)
+        res = ("ok", rxn)
+    except Exception as e:  # noqa
+        res = ("err", e)
+    if spec is None:
+        if res[0] == "ok" or type(res[1]).__name__ != "UnbalancedReaction":
+            out.append(("Reaction.__init__|smiles-undecomposable", f"Reaction({smi!r}) -> {res}", {"smiles": smi}))
+        return out, spec, res
+    should, errs = spec_ctor(spec)
+    nr, np_ = len(spec["reacs"]), len(spec["prods"])
+    if res[0] == "err":
+        name = type(res[1]).__name__
+        if should:
+            out.append(("Reaction.__init__|smiles-balanced-rejected", f"Reaction({smi!r}) ({nr}->{np_}, balanced) raised {name}: {res[1]}", {"smiles": smi}))
+        elif name not in errs:
+            out.append(("Reaction.__init__|smiles-wrong-error", f"Reaction({smi!r}) violating {sorted(errs)} raised {name}: {res[1]}", {"smiles": smi}))
+        return out, spec, res
+    rxn = res[1]
+    if not should:
+        out.append(("Reaction.__init__|smiles-unbalanced-accepted", f"Reaction({smi!r}) should raise one of {sorted(errs)}", {"smiles": smi}))
+        return out, spec, res
+    got = ([m.n_atoms for m in rxn.reacs], [m.n_atoms for m in rxn.prods])
+    want = ([len(s["atoms"]) for s in spec["reacs"]], [len(s["atoms"]) for s in spec["prods"]])
+    tname = None if rxn.type is None else rxn.type.name
+    if got != want or tname != TYPE_TABLE[(nr, np_)]:
+        out.append(("Reaction.__init__|smiles-molecules", f"Reaction({smi!r}): molecules with atom counts {got}, type {tname}; the string has "
+                    f"fragments with {want} atoms, type {TYPE_TABLE[(nr, np_)]}", {"smiles": smi}))
+    return out, spec, res
+
+
+def run_oracles(ctx, im, specs, spell_lists, full, smiles=()):
     nfail, per_key = 0, {}
+    for smi in smiles:
+        res, _, _ = smiles_oracle(im, smi)
+        ctx.count("smiles", smi)
+        for key, what, extra in res:
+            nfail += 1
+            per_key[key] = per_key.get(key, 0) + 1
+            if per_key[key] <= 2:
+                ctx.finding(key, what, dict({"kind": "smiles", "key": key}, **extra))
+    # the three dagger spellings are interchangeable, whatever precedes them
+    _, probe = im.build(probe_spec(im))
+    for _ in range(120 if full else 40):
+        pre = "".join(ctx.rng.choice(FUZZ_ALPHABET) for _ in range(ctx.rng.randint(0, 4)))
+        res = [im.delta(probe, pre + d) for d in ("â€¡", " ddagger", " double dagger")]
+        ctx.count("dagger-spellings", pre)
+        if not (res[0] == res[1] == res[2]):
+            nfail += 1
+            per_key["Reaction.delta|dagger-spellings-differ"] = per_key.get("Reaction.delta|dagger-spellings-differ", 0) + 1
+            if per_key["Reaction.delta|dagger-spellings-differ"] <= 2:
+                ctx.finding("Reaction.delta|dagger-spellings-differ", f"delta({pre + 'â€¡'!r}) = {res[0]}, with ' ddagger' {res[1]}, "
+                            f"with ' double dagger' {res[2]}", {"kind": "dagger", "prefix": pre, "spec": probe_spec(im), "spellings": [pre + "â€¡", pre + " ddagger", pre + " double dagger"]})
     for idx, (spec, spellings) in enumerate(zip(specs, spell_lists)):
         with_ckpt = (idx % (4 if full else 7) == 0)
         res = oracles(im, spec, spellings, ctx.rng, os.path.join(ctx.work, f"ck{idx}"), with_ckpt)
@@ -902,9 +1212,9 @@ def run(ctx):
         ctx.log("source pins changed:", ", ".join(pins_changed))
     # 1. regenerate the model tables from the repository
     ok_tr, outs = True, []
-    for tr in ("translate_units.py", "translate_c05.py"):
+    for tr in ("translate_c05.py",):                 # writes gen/C05_Gen.v and C05's own gen/C05_Units_Gen.v
         rc, out = sh(["python3", f"{VERIF}/tr/{tr}"], timeout=120)
-        outs.append(out.strip()[:600])
+        outs.append(out.strip()[:900])
         ok_tr = ok_tr and rc == 0
     ctx.log("translators:", "ok" if ok_tr else "FAILED CLOSED: " + " | ".join(outs)[-400:])
     ctx.cov["translator"] = {"ok": ok_tr, "output": outs}
@@ -913,6 +1223,14 @@ def run(ctx):
     proofs_ok = False
     if ok_tr:
         proofs_ok, info = ctx.proofs(SLICE, "C05/Props.v", "AV.C05.Props", extra_targets=["C05/Corr.vo"])
+        tail = info.get("log_tail", "")
+        if not proofs_ok and not info["hygiene"] and "./C05/" not in tail and "./gen/C05" not in tail:
+            # the failure is not located in C05's own files (shared lib / another builder's file mid-edit): retry once
+            ctx.log("build failed outside the C05 slice; retrying once in 20 s")
+            time.sleep(20)
+            ctx.cov["obligations"] = 0
+            ctx.cov["theorems"] = []
+            proofs_ok, info = ctx.proofs(SLICE, "C05/Props.v", "AV.C05.Props", extra_targets=["C05/Corr.vo"])
         ctx.log("proofs:", "ok" if proofs_ok else "BROKEN")
         ctx.cov["print_assumptions"] = info.get("assumptions", {})
     else:
@@ -924,7 +1242,8 @@ def run(ctx):
     specs = [probe_spec(im), {"solvent_name": None, "reacs": [], "prods": [], "tss": []}]
     specs += [gen_reaction(ctx.rng, im, full) for _ in range(n)]
     spell_lists = [gen_spellings(ctx.rng, 6 if full else 3, 12 if full else 6) for _ in specs]
-    nfail, per_key = run_oracles(ctx, im, specs, spell_lists, full)
+    smiles = gen_smiles(ctx.rng, 40 if full else 5)
+    nfail, per_key = run_oracles(ctx, im, specs, spell_lists, full, smiles)
     ctx.log(f"implementation oracles: {nfail} failures {per_key}")
     known = set(ctx.known_keys())
     new_fail = sum(v for k, v in per_key.items() if k not in known)
@@ -934,7 +1253,7 @@ def run(ctx):
     if proofs_ok or os.path.exists(os.path.join(VERIF, "coq", "C05", "Corr.vo")):
         ok_c, log = (True, "") if proofs_ok else ctx.coq_make(["C05/Corr.vo"])
         if ok_c:
-            corr_bad, corr_err = correspondence(ctx, im, specs, spell_lists, full)
+            corr_bad, corr_err = correspondence(ctx, im, specs, spell_lists, full, smiles)
             ctx.log(f"correspondence: {len(corr_bad)} disagreements" + (f"; coq error {corr_err[:300]}" if corr_err else ""))
             ctx.cov["disagreements"] = len(corr_bad)
         else:
@@ -969,6 +1288,18 @@ def replay(ctx, obj):
         if "spec" in d:
             specs.append((d["spec"], d.get("spellings") or list(DOC)))
     n = 0
+    if rp.get("kind") == "smiles":
+        res, _, outcome = smiles_oracle(im, rp["smiles"])
+        print("replay: Reaction(%r) ->" % rp["smiles"], "ok" if outcome[0] == "ok" else f"{type(outcome[1]).__name__}: {outcome[1]}")
+        for key, what, _ in res:
+            n += 1 if key == rp.get("key", key) else 0
+            print("replay:", key, "-", what)
+    if rp.get("kind") == "dagger":
+        _, probe = im.build(rp["spec"])
+        res = [im.delta(probe, x) for x in rp["spellings"]]
+        print("replay:", list(zip(rp["spellings"], res)))
+        n += 0 if res[0] == res[1] == res[2] else 1
+        specs = []
     for spec, spellings in specs:
         res = oracles(im, spec, spellings, ctx.rng, os.path.join(ctx.work, "replay"), True)
         for key, what, _ in res:
@@ -985,23 +1316,25 @@ def replay(ctx, obj):
 
 
 MANIFEST = {
-    "technique": "Coq proof over tables regenerated from source (ast translator) + hand model tied by randomized model/implementation correspondence",
-    "level_text": ("Machine-checked theorems (coq/C05/Props.v, closed under the global context), for ALL multisets of species, charges, "
+    "technique": "Coq proof over tables regenerated from source (ast translator) + hand model tied by source pins and randomized model/implementation correspondence + independent implementation oracles",
+    "level_text": ("Machine-checked (coq/C05/Props.v, 16 theorems closed under the global context), for ALL multisets of species, charges, "
                    "multiplicities, solvents, energies and units: the constructor succeeds iff atom count, charge and unpaired-electron "
                    "sums agree, solvents are consistent and the (n_reactants, n_products) pair is classifiable, with the exact error "
-                   "otherwise; the type is a function of the two counts (full table); delta equals the sum over products (or the TS) "
-                   "minus the sum over reactants of individually converted contributions, is invariant under re-expressing any "
-                   "contribution in another implemented energy unit, changes sign under switch_reactants_products for non-barrier "
-                   "types, is None exactly when a required contribution is missing, equals max(0, delta) (+ 0.00694 Ha unless "
-                   "rearrangement) when there is no TS; every documented delta_type spelling maps to its kind and no string "
-                   "containing 'free' maps to the potential energy; save/load/switch histories preserve every one of these values."),
-    "level_note": ("The parsing tables, combining arithmetic, constants, balance checks, constructor order and classify rules are "
-                   "regenerated from the repository on every run; the interpreters, _check_solvent, the Species energy look-ups, "
-                   "the choice of the lowest TS and save/load are a hand model validated by correspondence (quick: ~200 reactions x ~25 "
-                   "spellings + histories, ~300 parser strings). pickle is an oracle. Statements FALSE of the faithful model are proved "
-                   "as *_refuted witnesses: the type is not re-derived after switch_reactants_products (holds on the current tree); and, "
-                   "conditional on the pinned form of TransitionStates.lowest_energy (gen lowest_unit = None), the lowest TS is chosen by "
-                   "raw numbers irrespective of units and a TS without energy among several gives TypeError instead of None - with the "
-                   "repaired form (lowest_unit = Some u) the positive theorems delta_unit_independent / delta_ts_total_if_common_unit "
-                   "apply unconditionally instead."),
+                   "otherwise; the type is a function of the two counts (full table); delta equals the sum over products (or the lowest "
+                   "TS, lowest meaning lowest energy in Hartree among the TSs that have one) minus the sum over reactants of individually "
+                   "converted contributions; it is invariant under re-expressing any contribution in another energy unit (any number of "
+                   "TSs) and the energy setter stores the physical quantity assigned; it changes sign under switch for non-barrier types, "
+                   "is None exactly when a required contribution is missing and never raises; with no TS it is max(0, delta) (+ 0.00694 "
+                   "Ha unless rearrangement); the 16 documented spellings map to their kind, letter case never matters, no string "
+                   "containing 'free' maps to the potential energy; switch / set-TS / append histories act as stated."),
+    "level_note": ("PARTIAL: 'save/reload preserves' is definitional in the model (checkpoint_roundtrip_partial: save is the identity on the "
+                   "modelled attributes, pickle is an oracle); the clause is carried by the translator's statement-by-statement match of "
+                   "save/load/decorator and by the pickle round-trip oracle on every generated reaction, the decorator logic (>= 1 s and "
+                   "not raising -> stored under its key; else nothing) is proved over that oracle. Interchangeability of the three dagger "
+                   "spellings for arbitrary prefixes is exercised (oracle + stream), not proved. The generated tables are re-read from the "
+                   "repository on every run; interpreters, _check_solvent, energy look-ups/append/setter, TS choice, ts setter, in-place "
+                   "updates are a hand model (36 source pins) validated by correspondence (quick: ~200 reactions x ~25 spellings + 1-5 "
+                   "step histories, ~300 parser strings, 12 reaction SMILES). One statement is FALSE of the faithful model and proved as "
+                   "type_after_switch_refuted (known finding). energy_supply_spec is stated by cases on the generated setter form "
+                   "(unit kept: proved preserved; unit dropped: refuted by witness), so it is never vacuous."),
 }
